@@ -28,7 +28,7 @@ var modelled = map[string]string{
 	"time.(Time).UTC": "T-time", "time.(Time).Location": "T-time", "time.(Time).Format": "T-time", "time.Parse": "T-time",
 	"http.ParseTime": "T-time", "time.(Time).UnixNano": "T-time",
 	"path.IsAbs": "T-path",
-	"strings.SplitN": "T-strings",
+	"strings.SplitN": "T-strings", "strings.Split": "T-strings",
 	"path.Clean": "T-path", "filepath.Join": "T-path", "filepath.FromSlash": "T-path", "filepath.ToSlash": "T-path", "filepath.Rel": "T-path",
 	"url.Parse": "T-url", "url.(*URL).String": "T-url",
 }
@@ -311,6 +311,18 @@ func (x *Exec) modelCall(st *State, fr *Frame, key string, cc *ssa.CallCommon, a
 	case "strings.IndexRune":
 		x.C.decl("(declare-fun indexRune (String Int) Int)")
 		return b(fmt.Sprintf("(indexRune %s %s)", args[0].Term, args[1].Term))
+	case "strings.Split":
+		// only the number of fields is modelled, and only for the separator "/": len == nsep(s) + 1
+		// (nsep is declared with its T-strings facts by /verif/specs/strings.spec); the fields are unconstrained
+		sc, ok1 := cc.Args[1].(*ssa.Const)
+		if _, ok := x.rawFuncs["nsep"]; !ok || !ok1 || sc.Value == nil || constant.StringVal(sc.Value) != "/" {
+			return Val{}, false
+		}
+		x.use(id)
+		x.abstr["fields of strings.Split unconstrained (only their number is modelled)"] = true
+		base := x.newRef(st)
+		ln := fmt.Sprintf("(+ (nsep %s) 1)", args[0].Term)
+		return Val{T: rt, Term: fmt.Sprintf("(mkSlice %s %s %s)", base, ln, ln)}, true
 	case "strings.SplitN":
 		// exact for a constant non-empty separator and n == 3
 		sc, ok1 := cc.Args[1].(*ssa.Const)
